@@ -12,7 +12,7 @@ import (
 func init() {
 	register(&propInfo{
 		ID:          "C20",
-		Explanation: "Typestate, lockset and path analysis of the httpio reader side channel: (R20.1) the channel that signals 'stream consumed' is closed only inside sync.Once-guarded closures of one Once object, although Read and Close may be invoked any number of times; (R20.2) upload handler and parameter decoder each perform lookup-or-create of the hand-off channel inside one critical section of the same mutex, keyed by the parsed id, create only on the not-found branch, and meet on that channel with opposite directions, each inside a select that also watches its context; (R20.3) the encoder draws a fresh id on every invocation (inside the encoder closure), uploads the caller's reader to a URL derived from that id and returns that same id as the parameter; (R20.4) the upload handler reports success only after the consumed-signal was received, and no path falls off the end (implicit 200) without it. R20.1 also requires every use of the wrapped body outside the signalling Read/Close to raise the signal itself; (R20.7) the inner read stands behind a test of a wrapper field that every failing read sets, so end-of-file is reported again without touching the body that net/http closes once the signal is raised. (R20.8) a registered parameter encoder runs once per argument, before the first transport send; (R20.9) a counting limit in the reader path is given back on every path. (R20.10) the encoder does nothing with the caller's reader except hand it to the upload request. (R20.11) the upload handler never reads the request body itself. (R20.12) the upload handler waits only for its rendezvous, its request's context and the consumed signal.",
+		Explanation: "Typestate, lockset and path analysis of the httpio reader side channel: (R20.1) the channel that signals 'stream consumed' is closed only inside sync.Once-guarded closures of one Once object, although Read and Close may be invoked any number of times; (R20.2) upload handler and parameter decoder each perform lookup-or-create of the hand-off channel inside one critical section of the same mutex, keyed by the parsed id, create only on the not-found branch, and meet on that channel with opposite directions, each inside a select that also watches its context; (R20.3) the encoder draws a fresh id on every invocation (inside the encoder closure), uploads the caller's reader to a URL derived from that id and returns that same id as the parameter; (R20.4) the upload handler reports success only after the consumed-signal was received, and no path falls off the end (implicit 200) without it. R20.1 also requires every use of the wrapped body outside the signalling Read/Close to raise the signal itself; (R20.7) the inner read stands behind a test of a wrapper field that every failing read sets, so end-of-file is reported again without touching the body that net/http closes once the signal is raised. (R20.8) a registered parameter encoder runs once per argument, before the first transport send; (R20.9) a counting limit in the reader path is given back on every path. (R20.10) the encoder does nothing with the caller's reader except hand it to the upload request. (R20.11) the upload handler never reads the request body itself. (R20.12) the upload handler waits only for its rendezvous, its request's context and the consumed signal. (R20.13) the wait for the consumed signal has no timer or deadline context among its alternatives.",
 		NotDecided:  "Byte-exactness of the stream (values through net/http), arrival-order schedules themselves (only the symmetric locked rendezvous that makes both orders work), and the upload handler carrying on after a malformed id (observation recorded in DESIGN.md).",
 		Assumptions: []string{"sync.Once.Do runs its argument at most once per Once object", "the wrapper type is the struct in httpio embedding io.ReadCloser with a chan struct{} field"},
 		Run:         runC20,
@@ -503,6 +503,69 @@ func runC20(c *Ctx) {
 	}
 	if !c.need("R20.2", "upload handler closure / decoder closure", hnd != nil && decf != nil) {
 		return
+	}
+
+	// ---- R20.13: how long the handler takes to consume the stream is its own business: the upload handler's wait
+	// for the consumed signal may end early only when the uploading request itself is given up. A timer or a
+	// context with a deadline among the alternatives ("pairing time-out") cuts long streams: the handler answers,
+	// net/http closes the body, and the RPC handler reads a prefix followed by an error instead of end-of-file.
+	c.ruleOpt("R20.13", "the wait for the consumed signal has no time limit of the library's own: its only alternative is the uploading request's context, not a timer or a context with a deadline")
+	{
+		n := 0
+		timed := func(v ssa.Value) string {
+			// <-time.After(..) / timer.C
+			if ci, ok := v.(*ssa.Call); ok && calleeName(ci) == "time.After" {
+				return "time.After"
+			}
+			if f := loadedField(v); f != nil && f.Name() == "C" && isNamed(f.Type(), "", "") {
+				return ""
+			}
+			ci, ok := v.(*ssa.Call)
+			if !ok || !ci.Common().IsInvoke() || ci.Common().Method.Name() != "Done" {
+				return ""
+			}
+			res := ""
+			c.dependsOn(ci.Common().Value, func(x ssa.Value) bool {
+				if call, ok := x.(*ssa.Call); ok {
+					switch calleeName(call) {
+					case "context.WithTimeout", "context.WithDeadline", "context.WithTimeoutCause", "context.WithDeadlineCause":
+						res = calleeName(call)
+						return true
+					}
+				}
+				return false
+			}, 0, map[ssa.Value]bool{})
+			return res
+		}
+		for _, g := range c.region(hnd) {
+			allInstrs(g, func(in ssa.Instruction) {
+				sel, ok := in.(*ssa.Select)
+				if !ok {
+					return
+				}
+				waits := false
+				for _, st := range sel.States {
+					if st.Dir == types.RecvOnly && fWait != nil && isLoadOf(st.Chan, fWait) {
+						waits = true
+					}
+				}
+				if !waits {
+					return
+				}
+				for _, st := range sel.States {
+					if st.Dir != types.RecvOnly {
+						continue
+					}
+					if how := timed(st.Chan); how != "" {
+						n++
+						c.bad("R20.13", fmt.Sprintf("%s: wait for the consumed signal", fname(g)), c.ipos(sel), "the wait for the consumed signal is also ended by "+how+": a stream whose consumption outlasts that limit (a large payload, a slow handler, a trickling producer) is cut — the upload is answered, the body closed, and the handler reads a prefix followed by an error instead of end-of-file")
+					}
+				}
+			})
+		}
+		if n == 0 {
+			c.ok("R20.13", "no instance", "-", "the wait for the consumed signal is bounded only by the request's own context")
+		}
 	}
 
 	// ---- R20.12: an upload waits for its request, for its request's context and for the consumed signal — for
